@@ -25,7 +25,11 @@ func VerifCloseRace() {
 		// the region is cached and online; the script may make it fail and be replaced
 		known = false
 		c.regions.put(reg)
-		reg.SetClient(c.clients.put("rs0:1", reg, func() hrpc.RegionClient { return e.factory("rs0:1", "", 0, 0, "", 0, nil, nil, nil) }))
+		reg.SetClient(c.clients.put("rs0:1", reg, func() hrpc.RegionClient {
+			rc := e.factory("rs0:1", "", 0, 0, "", 0, nil, nil, nil)
+			rc.(*vCluRC).dialled = true
+			return rc
+		}))
 	}
 	if known {
 		// the region is cached and in the middle of an outage, its establisher running
@@ -41,15 +45,29 @@ func VerifCloseRace() {
 	var r1 vUserResult
 	go vUserGet(c, context.Background(), "k", &r1, fin)
 	closed := make(chan struct{})
+	closed2 := make(chan struct{})
+	openAfterClose := false
 	go func() {
 		c.Close()
 		c.Close() // closing twice is harmless
 		e.closed = true
 		close(closed)
 	}()
+	go func() {
+		// a second, overlapping Close: when it returns the client is closed as well
+		c.Close()
+		for _, rc := range e.clients {
+			if rc.closed == 0 && !rc.dead && rc.dialled {
+				openAfterClose = true
+			}
+		}
+		close(closed2)
+	}()
 	<-fin
 	<-closed
+	<-closed2
 	verifQuiesce()
+	verifAssert(!openAfterClose, "when an overlapping Close returns, every connection that was open is closed")
 
 	verifAssert(r1.done, "a request in flight returns")
 	verifAssert(r1.err == nil || r1.err == ErrClientClosed || (e.tableGone && r1.err == TableNotFound),
